@@ -729,6 +729,13 @@ built used inside the closures (nothing per-session is drawn once per feature va
 theorem C03_gen_no_captured_call_results : Generated.C03.saslCapturedCallResults = some [] := by decide
 
 
+/-- **SASL is gated by the session state** (probed on every run: the harness builds the two
+feature values with the code under test and reads their masks): both `xmpp.SASL` and
+`xmpp.SASLServer` require exactly `Secure` and are prohibited exactly by `Authn` — an
+authenticated session is never put through a second exchange that could replace the identity
+the first one established, and credentials are not negotiated before the stream is secured. -/
+theorem C03_gen_feature_gates : Generated.C03.saslFeatureGates = some [(true, true), (true, true)] := by decide
+
 /-- **Sessions are independent.**  Whatever the schedule — any interleaving of the sessions'
 steps, any number of sessions — the state of session `i` is the state it reaches when run
 alone for as many quanta as the schedule gave it: it is a function of its own script only,
